@@ -338,6 +338,91 @@ def expected(c):
             ok, got = False, f"raised {type(ex).__name__}: {ex}"
         if not ok:
             rac.fail("repeated+partial " + name, f"C11 {name}: the receiving manager ends with {got}", scr, "Manager.copy_expr_from" if "copy" in name else "Manager.load")
+    rac.section("colliding+foreign", "(a) item references with the SAME key under two different owners whose (32-bit) hashes collide -- a pair is searched among "
+                "<= 400 000 owners e['bend<i>'] on every run -- printed one after the other: each prints, and rebuilds, its own path, and a dump with definitions "
+                "on both keeps both; (b) copy_expr_from of one container while the source manager ALSO controls a numpy-array container that is the target "
+                "of a definition (a foreign top-level container whose == is element-wise)", "1 colliding pair x 2 orders; 3 foreign containers")
+    COL = '''
+import xdeps
+def colliding_pair(limit=400000):
+    m = xdeps.Manager(); e = m.ref({}, "e")
+    seen = {}
+    for i in range(limit):
+        o = e["bend%d" % i]
+        h = hash(o)
+        if h in seen:
+            return seen[h], i
+        seen[h] = i
+    return None
+'''
+    cenv = {}
+    exec(COL, cenv)
+    pair = cenv["colliding_pair"]()
+    if pair is not None:
+        for order in (pair, pair[::-1]):
+            i, j = order
+            body = (f"i, j = {i}, {j}\nd = {{'bend%d' % i: {{'k1': 1.0}}, 'bend%d' % j: {{'k1': 2.0}}, 'a': 3.0}}\nm = xdeps.Manager(); e = m.ref(d, 'e')\n"
+                    "ri, rj = e['bend%d' % i]['k1'], e['bend%d' % j]['k1']\nassert hash(e['bend%d' % i]) == hash(e['bend%d' % j])\n"
+                    "ti, tj = repr(ri), repr(rj)\nprint(ti, tj)\nassert ti == \"e['bend%d']['k1']\" % i and tj == \"e['bend%d']['k1']\" % j\nassert ri != rj\n"
+                    "ri._owner._owner[ri._owner._key][ri._key] = e['a'] * 2\ne['bend%d' % j]['k1'] = e['a'] + 1\nassert len(m.dump()) == 2, m.dump()\n"
+                    "d2 = {'bend%d' % i: {'k1': 0.0}, 'bend%d' % j: {'k1': 0.0}, 'a': 3.0}\nm2 = xdeps.Manager(); e2 = m2.ref(d2, 'e'); m2.load(m.dump()); e2['a'] = 3.0\n"
+                    "assert d2 == d, (d2, d)\n")
+            rac.case(("colliding", order), sample=dict(owners=[f"e['bend{i}']", f"e['bend{j}']"]))
+            try:
+                d = {f"bend{i}": {"k1": 1.0}, f"bend{j}": {"k1": 2.0}, "a": 3.0}
+                m = xdeps.Manager()
+                e = m.ref(d, "e")
+                ri, rj = e[f"bend{i}"]["k1"], e[f"bend{j}"]["k1"]
+                ti, tj = repr(ri), repr(rj)
+                ok = ti == f"e['bend{i}']['k1']" and tj == f"e['bend{j}']['k1']" and ri != rj
+                if ok:
+                    e[f"bend{i}"]["k1"] = e["a"] * 2
+                    e[f"bend{j}"]["k1"] = e["a"] + 1
+                    dump = m.dump()
+                    d2 = {f"bend{i}": {"k1": 0.0}, f"bend{j}": {"k1": 0.0}, "a": 3.0}
+                    m2 = xdeps.Manager()
+                    e2 = m2.ref(d2, "e")
+                    m2.load(dump)
+                    e2["a"] = 3.0           # (load only registers: an assignment runs the definitions)
+                    ok = len(dump) == 2 and d2 == d
+                if not ok:
+                    rac.fail(f"colliding {order}", f"C11 owners e['bend{i}'] and e['bend{j}'] have equal hashes: their items print as {ti!r} and {tj!r} "
+                             f"(equal: {ri == rj}); a manager with a definition on each dumps {len(m.dump())} definition(s)", PRELUDE + COL + body, "ItemRef.__repr__")
+            except Exception as ex:     # noqa
+                rac.fail(f"colliding {order}", f"C11 colliding owners: {type(ex).__name__}: {ex}", PRELUDE + COL + body, "ItemRef.__repr__")
+    FOR = '''
+import xdeps, numpy as np
+def mkf(kind):
+    arr = {"array": np.array([1.0, 2.0, 3.0]), "matrix": np.zeros((2, 2)), "list": [1.0, 2.0, 3.0]}[kind]
+    c = {"a": 1.5, "b": 0.0, "t": 0.0}
+    m = xdeps.Manager(); r = m.ref(c, "c"); ra = m.ref(arr, "arr")
+    r["b"] = r["a"] * 2
+    if kind == "matrix":
+        ra[0, 1] = r["a"] + 1
+    else:
+        ra[1] = r["a"] + 1          # a definition whose target lives in the OTHER top-level container
+    r["t"] = r["b"] + 1
+    return c, arr, m
+'''
+    fenv = {}
+    exec(FOR, fenv)
+    for kind in ("array", "matrix", "list"):
+        body = (f"c, arr, m = mkf({kind!r})\nc2 = {{'a': 4.0, 'b': 0.0, 't': 0.0}}\nm2 = xdeps.Manager(); r2 = m2.ref(c2, 'c')\nm2.copy_expr_from(m, 'c')\n"
+                "print(sorted(m2.dump()))\nr2['a'] = 5.0\nassert c2 == {'a': 5.0, 'b': 10.0, 't': 11.0}, c2\n")
+        rac.case(("foreign", kind), sample=dict(foreign_container=kind))
+        try:
+            c, arr, m = fenv["mkf"](kind)
+            c2 = {"a": 4.0, "b": 0.0, "t": 0.0}
+            m2 = xdeps.Manager()
+            r2 = m2.ref(c2, "c")
+            m2.copy_expr_from(m, "c")
+            r2["a"] = 5.0
+            if c2 != {"a": 5.0, "b": 10.0, "t": 11.0} or len(m2.dump()) != 2:
+                rac.fail(f"foreign {kind}", f"C11 copy_expr_from(m, 'c') next to a {kind} container with a definition: the copy holds {sorted(m2.dump())} and a := 5.0 "
+                         f"leaves {c2}", PRELUDE + FOR + body, "Manager.copy_expr_from")
+        except Exception as ex:     # noqa
+            rac.fail(f"foreign {kind}", f"C11 copy_expr_from(m, 'c') next to a {kind} container with a definition raised {type(ex).__name__}: {ex}",
+                     PRELUDE + FOR + body, "Manager.copy_expr_from")
     return rac.finish()
 
 
